@@ -50,13 +50,13 @@ theorem counters_step (run : Nat → St) (ls : Nat → Option Label) (i : Nat) :
 
 /-- when the producers are quiet from `i0` on, the follower's queues drain and stay empty (the situation the
     round-3 formulation had in mind: `followerWork = 0`) -/
-theorem follower_drains (hc : c.busy < c.cap) (B : Nat → Nat) (hr : IsRun c run ls) (hf : FairRun c run ls)
-    (hnq : ∀ i, (run i).quit = false) (hbud : ∀ i t, (obs run ls i).used t ≤ B t) (i0 : Nat)
+theorem follower_drains (hc : c.busy < c.cap) (hr : IsRun c run ls) (hf : FairRun c run ls)
+    (hnq : ∀ i, (run i).quit = false) (i0 : Nat)
     (hquiet : ∀ j, i0 ≤ j → ls j ≠ some .eBlk ∧ ls j ≠ some .eTx) :
     ∃ j, i0 ≤ j ∧ ∀ j', j ≤ j' → followerWork (run j') = 0 := by
-  have hp := progress_run hc B hr hf hnq hbud
+  have hp := follower_run hc hr hf hnq
   obtain ⟨j1, hj1, hb⟩ := hp.1 i0
-  obtain ⟨j2, hj2, ht⟩ := hp.2.1 i0
+  obtain ⟨j2, hj2, ht⟩ := hp.2 i0
   have hann : ∀ d, (obs run ls (i0 + d)).annB = (obs run ls i0).annB ∧ (obs run ls (i0 + d)).annT = (obs run ls i0).annT := by
     intro d
     induction d with
